@@ -55,12 +55,14 @@ theorem Obj.keep (hI : VolInv s gh) (hx : Obj s gh h x) : keep x = true := by
 
 /-- **From the manager to the abstract file system**: the object is a file slot of the abstract directory, and
 no handle that refers to it has unflushed changes. -/
-theorem keepsA_of_obj (hI : VolInv s gh) (hA : Abs s gh a) (hx : Obj s gh h x) :
+theorem keepsA_of_obj (hI : VolInv s gh) (hA : Abs s gh a) (hx : Obj s gh h x) (P : Spec.AbsFs.Meta → Prop)
+    (hq : ∀ f, f ∈ s.files → fkey f = spos x → f.dirty = false ∨ P (Spec.AbsFs.view f.entry))
+    (hsync : ∀ pm, P pm → Spec.AbsFs.storedMeta pm = metaOf gh.vol.fatType x) :
     ∃ j, (beforeEnd (dirSlots gh.vol s.dev.disk gh.G h))[j]? = some x ∧
-      KeepsA a h j (metaOf gh.vol.fatType x) (contentOf gh.vol s.dev.disk gh.G s.files x) := by
+      KeepsA a h j (metaOf gh.vol.fatType x) (contentOf gh.vol s.dev.disk gh.G s.files x) P := by
   have hM := medX_of_med hI.med
   obtain ⟨j, hj⟩ := List.getElem?_of_mem (hx.beforeEnd hI)
-  refine ⟨j, hj, ⟨by rw [hA.ids]; exact hx.dir, ?_, ?_⟩⟩
+  refine ⟨j, hj, ⟨by rw [hA.ids]; exact hx.dir, ?_, ?_, hsync⟩⟩
   · rw [hA.slots h hx.dir]
     unfold absSlots
     rw [List.getElem?_map, hj]
@@ -72,15 +74,21 @@ theorem keepsA_of_obj (hI : VolInv s gh) (hA : Abs s gh a) (hx : Obj s gh h x) :
     rw [h1, h2, hj] at ho
     injection ho with ho
     subst ho
-    exact hrel.dirty.trans (hx.quiet f hf hp.symm)
+    rcases hq f hf hp.symm with hc | hc
+    · exact .inl (hrel.dirty.trans hc)
+    · exact .inr (by rw [hrel.pm]; exact hc)
 
 /-- **Back from the abstract file system**: in a state `s` with abstract counterpart `a` in which slot `j` of
 directory `h` is the file with the name of the live file slot `x` of that directory on the medium, and only clean
 read-only handles refer to it, `x` is that slot, and it is an object to which only clean read-only handles refer. -/
 theorem obj_of_keepsA (hI : VolInv s gh) (hA : Abs s gh a) {j : Nat} {m : Spec.AbsFs.Meta} {bytes : Bytes}
-    (hk : KeepsA a h j m bytes) (hxm : x ∈ dirSlots gh.vol s.dev.disk gh.G h) (h0 : first x ≠ 0) (hkeep : keep x = true)
-    (hfile : isDirE x = false) (hname : sName x = m.name) :
-    Obj s gh h x ∧ (beforeEnd (dirSlots gh.vol s.dev.disk gh.G h))[j]? = some x := by
+    {P : Spec.AbsFs.Meta → Prop}
+    (hk : KeepsA a h j m bytes P) (hxm : x ∈ dirSlots gh.vol s.dev.disk gh.G h) (h0 : first x ≠ 0) (hkeep : keep x = true)
+    (hfile : isDirE x = false) (hname : sName x = m.name)
+    (hP : ∀ f, f ∈ s.files → fkey f = spos x → P (Spec.AbsFs.view f.entry) →
+      sCluster gh.vol.fatType x = f.entry.cluster ∧ sSize x = f.entry.size) :
+    Obj s gh h x ∧ (beforeEnd (dirSlots gh.vol s.dev.disk gh.G h))[j]? = some x ∧
+    ∀ f, f ∈ s.files → fkey f = spos x → f.dirty = false ∨ P (Spec.AbsFs.view f.entry) := by
   have hM := medX_of_med hI.med
   have hh : h ∈ dirIds gh.dirs := by rw [← hA.ids]; exact hk.ids
   have hT := hI.med.tree
@@ -111,7 +119,11 @@ theorem obj_of_keepsA (hI : VolInv s gh) (hA : Abs s gh a) {j : Nat} {m : Spec.A
       rw [entries_eq, List.mem_filter]; exact ⟨hbe, hkeep⟩
     have hox : o = x := AbsFs.eq_of_nodup_map sName (hT.names h hh) hoe hxe (hko.2.trans hname.symm)
     subst hox
-    refine ⟨⟨hh, AbsFs.view_object hM hh hbe hkeep hfile, hfile, ?_⟩, rfl⟩
+    have hq : ∀ f, f ∈ s.files → fkey f = spos o → f.dirty = false ∨ P (Spec.AbsFs.view f.entry) := ?_
+    · refine ⟨⟨hh, AbsFs.view_object hM hh hbe hkeep hfile, hfile, fun f hf hkey => ?_⟩, rfl, hq⟩
+      rcases hq f hf hkey with hc | hc
+      · exact .inl hc
+      · exact .inr (hP f hf hkey hc)
     intro f hf hkey
     obtain ⟨af, haf, hrel⟩ := forall₂_right' hA.files hf
     obtain ⟨o', ho', hp'⟩ := hrel.slot
@@ -122,7 +134,9 @@ theorem obj_of_keepsA (hI : VolInv s gh) (hA : Abs s gh a) {j : Nat} {m : Spec.A
       have hnd := beforeEnd_nodup (dirSlots_pos_nodup hM hh s.dev.disk)
       have hlt : af.idx < (Spec.Volume.beforeEnd (dirSlots gh.vol s.dev.disk gh.G h)).length := (List.getElem?_eq_some_iff.1 ho').1
       exact (List.getElem?_inj hlt hnd).1 (ho'.trans ho.symm)
-    exact hrel.dirty.symm.trans (hk.quiet af haf e1 hidx)
+    rcases hk.quiet af haf e1 hidx with hc | hc
+    · exact .inl (hrel.dirty.symm.trans hc)
+    · exact .inr (by rw [← hrel.pm]; exact hc)
 
 /-- Only read-only handles at the slot: from the manager to the abstract file system … -/
 theorem roA_of_allRO (hA : Abs s gh a) {j : Nat} (hj : (beforeEnd (dirSlots gh.vol s.dev.disk gh.G h))[j]? = some x)
